@@ -260,6 +260,10 @@ def dot_quoters(ctx: Ctx):
         rets = [n for n in walk_function(fi.node) if isinstance(n, ast.Return) and n.value is not None]
         wraps = any('"' in c.value for r in rets for c in ast.walk(r.value) if isinstance(c, ast.Constant) and isinstance(c.value, str) and c.value.count('"') >= 2) or any(
             isinstance(c, ast.Constant) and c.value == '"%s"' for r in rets for c in ast.walk(r.value))
+        for r in rets:  # f'"{escaped}"' / '"' + escaped + '"': the constant pieces open and close the quotes
+            cs = sorted((c for c in ast.walk(r.value) if isinstance(c, ast.Constant) and isinstance(c.value, str)), key=lambda c: (c.lineno, c.col_offset))
+            if len(cs) >= 2 and cs[0].value.startswith('"') and cs[-1].value.endswith('"'):
+                wraps = True
         if wraps:
             out[fi.name] = (qn, pairs, cond)
     return out
@@ -393,7 +397,11 @@ def c15_r4(ctx: Ctx, rule):
     pa = partition(aq, "annotation") or loop_partition(aq, "attributes")
     # in the relation loop: the variable deciding add_attribute_annotation
     dec = None
-    for n in walk_function(bf.node):
+    # the relation loop body may sit in _bundle_to_dot itself or in a nested helper it calls per relation
+    holders = [bq] + [q2 for q2 in ctx.helper_closure(bq, 1) if q2.startswith(bq + ".<locals>.") and q2 != aq]
+    bq0, bf0 = bq, bf
+    for bq, bf in [(h, ctx.fn(h)) for h in holders]:
+      for n in walk_function(bf.node):
         if isinstance(n, ast.Assign) and norm(n.targets[0]) == "add_attribute_annotation":
             names = [x.id for x in ast.walk(n.value) if isinstance(x, ast.Name)]
             for nm in names:
@@ -422,6 +430,8 @@ def c15_r4(ctx: Ctx, rule):
             for x in ast.walk(n.value):
                 if dec is None and isinstance(x, ast.Attribute) and "attributes" in x.attr and isinstance(x.value, ast.Name):
                     dec = (x.attr, "<property %s>" % x.attr, x)
+      if dec is not None:
+        break
     if pa is None or dec is None:
         raise AnalysisError("cannot extract the attribute partitions of the DOT annotation logic")
     same = pa[0] == dec[0] and pa[1] == dec[1]
@@ -453,7 +463,8 @@ def c06_r3(ctx: Ctx, rule):
         res.fail(rule.id, "provn-quoter", ctx.loc(q, ctx.fn(q).node), "the PROV-N string quoting function %s" % (why if not ok else "escapes only on some paths"),
                  "the string 'tail\\' is printed as \"tail\\\" and swallows the closing quote; a reader recovers another string or fails")
     # the users: Literal.provn_representation and encoding_provn_value route strings through it
-    users = [u for u in (M + ".Literal.provn_representation", M + ".encoding_provn_value") if any(call_name(c) == q.rsplit(".", 1)[1] for c in calls_in(ctx.fn(u).node))]
+    # (called directly, or referenced through a handler table the printer dispatches on: helper_closure follows both)
+    users = [u for u in (M + ".Literal.provn_representation", M + ".encoding_provn_value") if q in ctx.helper_closure(u, 2)]
     res.ob("string values reach the quoter from: %s" % [short(u) if u.count(".") > 2 else u for u in users], nontrivial=False)
     if len(users) < 2:
         res.fail(rule.id, "provn-quoter-bypassed", ctx.loc(q, ctx.fn(q).node), "a PROV-N value printer no longer routes strings through the quoting function")
